@@ -89,7 +89,7 @@ CHECKS = {
     design="§3 C07"),
  "C01": dict(
     technique="bounded symbolic execution (CrossHair/z3) of tree-construction KERNELS against few-line references written from the standard: scope tests, implied end tags, fragment insertion-mode reset, integration points, quirks-mode facts, Noah's-ark / reconstruction of active formatting elements; inputs by symbolic index",
-    text="KERNEL OBLIGATIONS ONLY - whole-algorithm equivalence is not claimed. Decided: the adoption agency's outer-loop bound (k nested blocks: 'y' leaves the formatting element iff k <= 7), the in-table-text whitespace rule on FULLY SYMBOLIC text (any 1-2 Unicode characters through the real tokenizer and parser), elementInScope for 5 scope kinds x 5/10 targets on every stack of depth <= 2 over a 17-element class alphabet (thorough: depth <= 3 over its first 12 elements) (incl. same local names in foreign namespaces); generateImpliedEndTags on stacks of depth <= 2/3 x every exclusion; resetInsertionMode for 25 fragment contexts; isHTMLIntegrationPoint / isMathMLTextIntegrationPoint for 16 elements x 9 encoding values; the quirks-mode decision (and the p/table nesting it controls) for 29 doctypes x keyword case; the element chain reconstructed after '<p>' + <= 4/5 formatting start tags + 'x</p>y' against the Noah's-ark rule. "
+    text="KERNEL OBLIGATIONS ONLY - whole-algorithm equivalence is not claimed. Decided: the adoption agency's outer-loop bound (k nested blocks: 'y' leaves the formatting element iff k <= 7), the in-table-text whitespace rule on FULLY SYMBOLIC text (any 1-2 Unicode characters through the real tokenizer and parser), elementInScope for 5 scope kinds x 5/10 targets on every stack of depth <= 2 over a 17-element class alphabet (thorough: depth <= 3 over its first 12 elements) (incl. same local names in foreign namespaces); generateImpliedEndTags on stacks of depth <= 2/3 x every exclusion; resetInsertionMode for 25 fragment contexts; isHTMLIntegrationPoint / isMathMLTextIntegrationPoint for 16 elements x 9 encoding values; the quirks-mode decision (and the p/table nesting it controls) for 29 doctypes x keyword case; the element chain reconstructed after '<p>' + <= 4 formatting start tags + 'x</p>y' against the Noah's-ark rule. "
          "The rest of the algorithm is exercised (not compared with the standard) by C03 totality / skeleton, C04 builder agreement, C16 strictness, C07 round trip, C12 reuse.",
     note="R4 references are my transcriptions of the 2020 standard; the quirks reference is 29 facts, not the full identifier table; one listed known finding covers the differences from revisions after html5lib's model (template, rb/rtc, td/th/head fragment reset, name-only implied end tags). NOT APPLICABLE in full: equality with the WHATWG algorithm on all inputs (no independent model offline). " + NOTE_COMMON,
     design="§3 C01"),
